@@ -1007,6 +1007,13 @@ func (p *Policy) validURL(rawurl string) (string, bool) {
 					-1,
 				)
 			}
+
+			// Line breaks inside base64 encoded data are the only white space
+			// that is tolerated: whatever white space is left now makes this a
+			// URL like any other that contains white space.
+			if strings.ContainsAny(rawurl, " \t\n") {
+				return "", false
+			}
 		}
 
 		// URLs are valid if they parse
